@@ -354,6 +354,51 @@ def positive_histories(rng, tier):
     return events
 
 
+def long_histories(rng, tier):
+    """A cold query on a context of a few hundred tokens, then queries on its prefixes and siblings, on one LM object;
+    every answer is compared with a pristine object's (float weights; values compared to 9 digits)."""
+    from props.c04 import rl_grammar, viable_context
+    from fractions import Fraction
+    from genlm.grammar.cfg import CFG
+    events = []
+    for gi in range(3 if tier == "quick" else 12):
+        G = rl_grammar(rng)
+
+        def mk():
+            g = CFG(R=us.Float, S=G["S"], V={"a", "b"})
+            for r in G["rules"]:
+                g.add(float(Fraction(*r["w"])), r["h"], *r["b"])
+            return g
+        for name, make, n in (("EarleyLM", lambda: EarleyLM(mk()), 300), ("rescaled.EarleyLM", lambda: ER.EarleyLM(mk()), 300),
+                              ("CKYLM", lambda: CKYLM(mk()), 40)):
+            ctx = tuple(viable_context(rng, G, n))
+            if len(ctx) < 20:
+                continue
+            ob = Obj(name, "earley" if "Earley" in name else "cky", "lm", make, 0)
+            import sys
+            old = sys.getrecursionlimit()
+            sys.setrecursionlimit(max(old, 5000))        # a cold query recurses once per token (not what is judged here)
+            try:
+                hist = []
+                for p in (ctx, ctx[: len(ctx) // 3], ctx[:-1], ctx[:5], ctx[: len(ctx) // 2] + ("a",), ctx):
+                    before = ob.keys() if len(ob.cache()) < 50 else []
+                    e = {"op": "query", "kind": ob.kind, "role": "lm", "obj": name, "q": "lm_pnext", "p": [], "before": [],
+                         "after": [], "hid": f"long{gi}", "site": f"{name}.p_next[long]", "feat": "long-context-history",
+                         "n": len(p)}
+                    hist.append(len(p))
+                    try:
+                        ans = ob.apply("pnext", p)
+                        e["same"] = ans == Obj(name, ob.kind, "lm", make, 0).apply("pnext", p)
+                    except Exception as ex:  # noqa: BLE001
+                        e["exc"] = type(ex).__name__
+                    e["call"] = {"fn": "long", "args": {"G": G, "obj": name, "lengths": list(hist)}}
+                    e["q"] = "transform"      # no cache-key clause for these (hundreds of keys); only `same`
+                    events.append(e)
+            finally:
+                sys.setrecursionlimit(old)
+    return events
+
+
 # ---------------------------------------------------------------------------
 # purity of queries and transformations
 
@@ -439,7 +484,8 @@ def selftests(events, rng):
 
 def run(report, tier, seed):
     rng = random.Random(seed + 5)
-    events = walk(report, rng, tier) + histories(rng, tier) + positive_histories(rng, tier) + purity(rng, tier)
+    events = (walk(report, rng, tier) + histories(rng, tier) + positive_histories(rng, tier) + long_histories(rng, tier)
+              + purity(rng, tier))
     for e in events:
         report.case(e, trivial=())
     judge(report, MODULE, events, relevant=RELEVANT)
